@@ -824,7 +824,7 @@ def chains(res, rng, groups, viol):
                         final_cum = lst([qlit(float(c)) for c in s2._cumulative_probabilities])
                         sm = s2.state_manager
                         g_inv.append(f"({lst([qlit(float(x)) for x in grid.axes[0]])}, {zlit(L)}, {zlit(int(sm.max_frontier_indices))}, {_pieces_lit(meas)}, {qlit(lam)}, {zlit(Mz)}, "
-                                     f"{_qpairs(zip(seq, outs))}, {final_cum}, {zlit(int(sm._last_projected_index))})")
+                                     f"{_qpairs(zip(seq, outs))}, {final_cum}, ({zlit(int(sm._last_projected_index))}, {zlit(int(sm._last_logged_index))}))")
                 # batch sample(size) with a lowered storage against the single-uniform entry point: the batch contains
                 # uniforms beyond the stored cumulative sums, in several orders
                 for M in (1, 2, 3, 5, 20):
@@ -868,7 +868,7 @@ def chains(res, rng, groups, viol):
                          sampler=name, **ctx0)
                 g_ba.append(f"({lst([qlit(float(x)) for x in grid.axes[0]])}, {zlit(L)}, {_pieces_lit(meas)}, {qlit(lam)}, {qlit(h)}, {_qpairs(zip(us2, outs))})")
 
-    groups.append(("inversion", "list Q * Z * Z * list (Q * Q * Q) * Q * Z * list (Q * Z) * list Q * Z", "chk_inversion", g_inv))
+    groups.append(("inversion", "list Q * Z * Z * list (Q * Q * Q) * Q * Z * list (Q * Z) * list Q * (Z * Z)", "chk_inversion", g_inv))
     groups.append(("bstadapted1d", "list Q * Z * list (Q * Q * Q) * Q * Q * list (Q * Z)", "chk_ba1d", g_ba))
     groups.append(("factoryvec", "list Q * Q * Z * list Q * list Z", "chk_factory_vec", g_vec))
 
@@ -1020,18 +1020,6 @@ def chain_2d(res, rng, groups, viol):
                 elif target[st] == 0:
                     viol(f"{name} through the factory returns a zero-probability state", u=u, got=list(st), **ctx, **(extra or {}))
 
-            def restart_model(M, u):
-                """what the faithful model (C02_inversion_overflow_refuted) predicts when the storage holds M sums: the
-                enumeration continues at the PAIRING index M instead of after the M-th admissible index"""
-                seq_idx = adm if M is None or M >= len(adm) else adm[:M] + [i for i in adm if i >= M]
-                acc = Fr(0)
-                for i in seq_idx:
-                    st_ = tuple(int(c_) for c_ in pz.project(i))
-                    acc += target[st_]
-                    if Fr(u) <= acc:
-                        return st_
-                return None
-
             # batch sample() against the single-uniform entry point
             us = [rng.randrange(0, 1 << 30) / (1 << 30) for _ in range(12)] + [0.0, top]
             orig_u = np.random.uniform
@@ -1099,11 +1087,8 @@ def chain_2d(res, rng, groups, viol):
                 bad = [i for i in range(len(seq)) if outs[0][i] != ref[i]]
                 if bad and M is not None:
                     i = bad[0]
-                    pred = restart_model(M, seq[i]) if method == SM.INVERSION else None
-                    viol(f"{name}: when the storage (_max_storage) fills up the enumeration restarts at the wrong index: wrong state for this uniform",
-                         finding="F-C02-7", max_storage=M, u=seq[i], got=list(outs[0][i]), with_default_storage=list(ref[i]),
-                         predicted_by_model=list(pred) if pred else None, admissible_states=len(adm),
-                         inadmissible_below_storage=(adm[M - 1] - (M - 1)) if len(adm) > M else 0, **ctx)
+                    viol(f"{name}: with a small _max_storage the state returned for a uniform differs from the one returned with the default storage",
+                         max_storage=M, u=seq[i], got=list(outs[0][i]), with_default_storage=list(ref[i]), **ctx)
                 if method == SM.INVERSION and M is not None:
                     # batch sample(size) with the lowered storage against the single-uniform entry point with the same storage
                     base = [rng.randrange(0, 1 << 30) / (1 << 30) for _ in range(10)] + [top, 0.5 + 2.0 ** -20]
@@ -1130,8 +1115,8 @@ def chain_2d(res, rng, groups, viol):
                     draws = lst([f"({qlit(seq[i])}, ({zlit(outs[0][i][0])}, {zlit(outs[0][i][1])}))" for i in range(len(seq))])
                     sm = samplers[0].state_manager
                     g_inv2.append(f"({zlit(L)}, {zlit(R)}, {zlit(int(sm.max_frontier_indices))}, {tab}, {zlit(1_000_000 if M is None else M)}, "
-                                  f"{draws}, {zlit(int(sm._last_projected_index))})")
-    groups.append(("inversion2d", "Z * Z * Z * list (Z * Z * Q) * Z * list (Q * (Z * Z)) * Z", "chk_inv2d", g_inv2))
+                                  f"{draws}, ({zlit(int(sm._last_projected_index))}, {zlit(int(sm._last_logged_index))}))")
+    groups.append(("inversion2d", "Z * Z * Z * list (Z * Z * Q) * Z * list (Q * (Z * Z)) * (Z * Z)", "chk_inv2d", g_inv2))
 
 
 # ----------------------------------------------------------------------------- n-d adapted tree: exact tie + wider oracle
@@ -1335,7 +1320,7 @@ def chain_nd_wide(res, rng, viol):
 # ----------------------------------------------------------------------------- Coq header (check functions)
 HEADER = r"""
 From Coq Require Import List ZArith QArith Bool.
-From RV Require Import Base.QB Base.Corr Gen.GenPairing Model.Pairing Model.StepLaw Model.Bst Model.Alias Model.Huffman Model.Table Model.Inversion Model.BstAdapted Model.Factory Model.BstAdaptedNd Model.Stateful.
+From RV Require Import Base.QB Base.Corr Gen.GenPairing Model.Pairing Model.StepLaw Model.Bst Model.Alias Model.Huffman Model.Table Model.StatesManager Model.Inversion Model.BstAdapted Model.Factory Model.BstAdaptedNd Model.Stateful.
 Import ListNotations.
 Open Scope Q_scope.
 
@@ -1399,24 +1384,24 @@ Definition cell_prob (axis : list Q) (o : Z) (pieces : list (Q * Q * Q)) (lam : 
 
 Definition iout_z (o : @iout Z) : Z := match o with Out s => s | Frontier => 999999%Z | NoOut => 888888%Z end.
 
-Definition chk_inversion (c : list Q * Z * Z * list (Q * Q * Q) * Q * Z * list (Q * Z) * list Q * Z) : bool :=
-  let '(axis, o, F, pieces, lam, M, draws, final_cum, final_lpi) := c in     (* F = the implementation's max_frontier_indices *)
+Definition chk_inversion (c : list Q * Z * Z * list (Q * Q * Q) * Q * Z * list (Q * Z) * list Q * (Z * Z)) : bool :=
+  let '(axis, o, F, pieces, lam, M, draws, final_cum, final_sm) := c in     (* F = the implementation's max_frontier_indices *)
   let L := o in let R := (Z.of_nat (length axis) - o - 1)%Z in
   let proj := z1d_project (- L) R 1 in
   let prob := cell_prob axis o pieces lam in
-  let inside := fun s : Z => ((- L <=? s) && (s <=? R))%Z in      (* not StatesManager.is_outside: inside the grid *)
-  match inv_init proj inside F prob with
+  let outside := fun s : Z => negb ((- L <=? s) && (s <=? R))%Z in      (* StatesManager.is_outside: outside the grid *)
+  match inv_init proj outside F prob with
   | None => false
   | Some st0 =>
       let fix go (st : @ist Z) (l : list (Q * Z)) : bool * @ist Z :=
         match l with
         | [] => (true, st)
         | (u, want) :: r =>
-            let so := inv_step proj inside F prob M st u in
+            let so := inv_step proj outside F prob M st u in
             if Z.eqb (iout_z (snd so)) want then go (fst so) r else (false, fst so)
         end in
       let '(ok, st) := go st0 draws in
-      ok && qlist_eqb (i_cum st) final_cum && Z.eqb (i_lpi st) final_lpi
+      ok && qlist_eqb (i_cum st) final_cum && zpair_eqb (i_sm st) final_sm      (* (_last_projected_index, _last_logged_index) *)
   end.
 
 Definition in_box (L R : Z) (s : Z * Z) : bool :=
@@ -1428,23 +1413,23 @@ Definition iout_zz (o : @iout (Z * Z)) : Z * Z :=
 
 (* 2-d INVERSION: enumeration of the factory for dimension 2 (Szudzik on N^2 mapped to Z^2, zero omitted),
    admissible = inside the box, probability table as data *)
-Definition chk_inv2d (c : Z * Z * Z * list (Z * Z * Q) * Z * list (Q * (Z * Z)) * Z) : bool :=
-  let '(L, R, F, tab, M, draws, final_lpi) := c in
+Definition chk_inv2d (c : Z * Z * Z * list (Z * Z * Q) * Z * list (Q * (Z * Z)) * (Z * Z)) : bool :=
+  let '(L, R, F, tab, M, draws, final_sm) := c in
   let proj := zd2_project szudzik_projection2d 1 in
-  let inside := in_box L R in
+  let outside := fun s => negb (in_box L R s) in
   let prob := lookup2 tab in
-  match inv_init proj inside F prob with
+  match inv_init proj outside F prob with
   | None => false
   | Some st0 =>
       let fix go (st : @ist (Z * Z)) (l : list (Q * (Z * Z))) : bool * @ist (Z * Z) :=
         match l with
         | [] => (true, st)
         | (u, want) :: r =>
-            let so := inv_step proj inside F prob M st u in
+            let so := inv_step proj outside F prob M st u in
             if zpair_eqb (iout_zz (snd so)) want then go (fst so) r else (false, fst so)
         end in
       let '(ok, st) := go st0 draws in
-      ok && Z.eqb (i_lpi st) final_lpi
+      ok && zpair_eqb (i_sm st) final_sm
   end.
 
 Definition chk_nd (c : Z * Z * list (list Z * Q) * list (Q * list Z)) : bool :=
@@ -1519,13 +1504,6 @@ def matches_known(v, known):
         first = r.get("first_enumerated_state")
         return (r.get("sampler") in RIGHT_CLOSED and r.get("u") == 0.0 and first is not None and got == first
                 and r.get("probability_of_got") == "0")
-    if known["id"] == "F-C02-7":
-        # only n-d INVERSION on a grid whose origin is not centred, storage really full with an inadmissible index below it,
-        # and the wrong state is exactly the one the faithful model (restart at the pairing index _max_storage) predicts
-        return (r.get("sampler") == "INVERSION-2d" and r.get("left") != r.get("right") and isinstance(r.get("max_storage"), int)
-                and r.get("admissible_states", 0) > r["max_storage"] and r.get("inadmissible_below_storage", 0) > 0
-                and r.get("predicted_by_model") is not None and r.get("got") == r.get("predicted_by_model")
-                and r.get("got") != r.get("with_default_storage"))
     return False
 
 
